@@ -502,6 +502,46 @@ def r9(rep):
     rep.floor("stores into the section table of lib.c", n, 8)
 
 
+def r10(rep):
+    """The header of an archive member is text: name, date, ids, mode and *size* as decimal (or octal) numbers.  They are
+    converted with strtol and kept as unsigned offsets; the size decides where the next header is looked for.  `-60` is a
+    well-formed number for strtol: as an unsigned size it wraps, the `next header` lies before the current one, and the table
+    reader reads the same header for ever (one substituted byte: `160` -> `-60`).  In archive.c the conversion result of every
+    strtol is tested against zero before the function returns it as good."""
+    f = common.extract("archive.c", all_trees=True)
+    n = 0
+    for name, fn in sorted(f.funcs.items()):
+        if "body" not in fn or not fn.get("file", "").endswith("archive.c"):
+            continue
+        for c in calls(fn["body"]):
+            if c.get("callee") not in ("strtol", "atol", "atoi", "strtoll"):
+                continue
+            n += 1
+            par = common.parents(fn["body"])
+            p_ = par.get(c["id"])
+            while p_ is not None and p_["k"] in ("ParenExpr", "ImplicitCastExpr", "CStyleCastExpr"):
+                p_ = par.get(p_["id"])
+            var = None
+            if p_ is not None and p_["k"] == "BinaryOperator" and p_["op"] == "=":
+                l = strip(p_["c"][0])
+                if l is not None and l["k"] == "DeclRefExpr":
+                    var = l["n"]
+            tested = False
+            if var is not None:
+                for x in walk(fn["body"]):
+                    if x["k"] == "BinaryOperator" and x["op"] in ("<", ">=", ">", "<=") and (strip(x["c"][0]) or {}).get("n") == var and const_value(x["c"][1]) == 0:
+                        tested = True
+            key = "header-number-not-negative:%s" % name
+            if tested:
+                rep.ok("R10", key + "@%d" % c["l"])
+            else:
+                rep.violation("R10", key, "archive.c:%d (%s)" % (c["l"], name),
+                              "the result of %s goes into an unsigned offset without a test of its sign: a size field of `-60` is "
+                              "accepted, wraps, and puts the next header before the current one -- the member table is read for "
+                              "ever (a hang from one substituted byte)" % c.get("callee"))
+    rep.floor("text-to-number conversions in archive.c", n, 1)
+
+
 def run(tier, only=None):
     rep = common.Report("C17", tier, EXPLANATION)
     units = common.compiler_units()
